@@ -44,7 +44,10 @@ FirstPassIndexesBlind == Selection = "pinned"
 (*                              Part "idp"                                 *)
 (***************************************************************************)
 Uses  == {"encryption", "omitted", "signing"}
-Certs == {"validRSA", "validEC", "malformedBase64", "badDER", "emptyString", "whitespaceOnly", "noX509CertificateElement"}
+\* validRSAChain: the SP's RSA certificate followed, in the same X509Data, by the certificate of its
+\* issuer - the SP holds the private key of the first only
+Certs == {"validRSA", "validRSAChain", "validEC", "malformedBase64", "badDER", "emptyString", "whitespaceOnly", "noX509CertificateElement"}
+GoodRSA(ct) == ct \in {"validRSA", "validRSAChain"}
 Desc(u, ct) == [use |-> u, cert |-> ct]
 Descs   == { Desc(u, ct) : u \in Uses, ct \in Certs }
 Layouts == UNION { [1..n -> Descs] : n \in 0..MaxDesc }
@@ -106,7 +109,7 @@ Decode ==
 Encrypt ==
   /\ part = "idp" /\ pc = "encrypt"
   /\ pc' = "done"
-  /\ outcome' = IF certStr = "validRSA" THEN "encrypted" ELSE "error"
+  /\ outcome' = IF GoodRSA(certStr) THEN "encrypted" ELSE "error"
   /\ UNCHANGED <<part, impl, layout, i, certStr, sel>> /\ UNCHANGED spVars
 
 (***************************************************************************)
@@ -202,13 +205,13 @@ IdpClass == IF Advertises(layout) THEN "MustProtect" ELSE "DontCare"
 \* "the response contains the assertion only inside an EncryptedAssertion ... recoverable with the SP's
 \*  private key": encrypted to one of the advertised certificates, or no response at all
 Protected == \/ outcome = "error"
-             \/ outcome = "encrypted" /\ sel \in AdvertisingAt(layout) /\ layout[sel].cert = "validRSA"
+             \/ outcome = "encrypted" /\ sel \in AdvertisingAt(layout) /\ GoodRSA(layout[sel].cert)
 NeverInClear == Done /\ IsIdp /\ impl = "required" /\ Advertises(layout) => Protected
 NeverPanics  == Done /\ IsIdp /\ impl = "required" => outcome # "panic"
 \* an SP with one good encryption certificate gets an encrypted assertion, wherever broken descriptors sit
 GoodKeyUsed  == Done /\ IsIdp /\ impl = "required"
-                /\ (\E k \in AdvertisingAt(layout) : layout[k].cert = "validRSA")
-                /\ (\A k \in AdvertisingAt(layout) : layout[k].cert = "validRSA")
+                /\ (\E k \in AdvertisingAt(layout) : GoodRSA(layout[k].cert))
+                /\ (\A k \in AdvertisingAt(layout) : GoodRSA(layout[k].cert))
                 => outcome = "encrypted"
 
 \* the model of the code differs from the required rule only where a named deviation is touched:
@@ -224,7 +227,7 @@ ReqFirst(l, k, u) == IF k > Len(l) THEN 0
                      ELSE IF l[k].use = u /\ HasElement(l[k]) /\ ~TextEmpty(l[k]) THEN k ELSE ReqFirst(l, k + 1, u)
 ReqSel(l) == IF ReqFirst(l, 1, "encryption") # 0 THEN ReqFirst(l, 1, "encryption") ELSE ReqFirst(l, 1, "omitted")
 ReqOutcome(l) == IF ReqSel(l) = 0 THEN "plaintext"
-                 ELSE IF l[ReqSel(l)].cert = "validRSA" THEN "encrypted" ELSE "error"
+                 ELSE IF GoodRSA(l[ReqSel(l)].cert) THEN "encrypted" ELSE "error"
 RequiredIsReq       == Done /\ IsIdp /\ impl = "required" => outcome = ReqOutcome(layout) /\ sel = ReqSel(layout)
 OnlyNamedDeviations == Done /\ IsIdp /\ impl = "actual" /\ ~TouchesDeviation => outcome = ReqOutcome(layout) /\ sel = ReqSel(layout)
 
